@@ -173,3 +173,27 @@ Proof.
     eexists. split; [rewrite COUNT; reflexivity|].
     split; [reflexivity|]. split; [exact F1|]. cbn [ccfg cdata]. auto.
 Qed.
+
+(* ---------- the long count is below 2^31 whenever the length is ---------- *)
+Lemma data_len_bound d : wf d \/ data d = [] -> blen d < 2 ^ 31 -> (lenN (data d) < 2 ^ 31)%N.
+Proof.
+  intros [W| ->] Hl; [|reflexivity].
+  pose proof (wf_size d W) as Hs. pose proof (wf_len d W) as Hn. pose proof (wf_vpl d W) as Hv.
+  pose proof (vpl_pos (wbits d) ltac:(pose proof (wf_bits d W); lia)) as Hp.
+  assert (Hb : (blen d + vpl d - 1) / vpl d <= blen d).
+  { destruct (Z.eq_dec (blen d) 0) as [E|E].
+    - rewrite E. rewrite Z.div_small; lia.
+    - apply Z.div_le_upper_bound; nia. }
+  unfold lenN. change (2 ^ 31)%N with 2147483648%N. change (2 ^ 31) with 2147483648 in Hl. lia.
+Qed.
+
+(* the wire round trip with the bound on the LENGTH (a chunk section has 4096 / 64 entries) *)
+Theorem wire_roundtrip_len c used rest fuel : Inv c -> ccfg used = ccfg c ->
+  blen (cdata used) = blen (cdata c) -> (wf (cdata c) \/ data (cdata c) = []) -> blen (cdata c) < 2 ^ 31 ->
+  (length (pal_export (cpal c)) <= fuel)%nat ->
+  exists c', run_flat (pc_read fuel used) (fst (pc_write c) ++ rest) = FOk (c', snd (pc_write c)) rest /\
+    snd (pc_write c) = lenN (fst (pc_write c)) /\ Inv c' /\ ccfg c' = ccfg c /\
+    blen (cdata c') = blen (cdata c) /\ pabs c' = pabs c.
+Proof.
+  intros I Hcf Hl Hd Hn Hf. apply wire_roundtrip; auto. apply data_len_bound; auto.
+Qed.
